@@ -164,8 +164,8 @@ Definition is_conflict_nidbug (a b : msg) : bool :=
   end.
 
 (* the pair kept in corpus/C06/nid_mismatch_votes.json (ids and hashes shortened) *)
-Definition nidbug_a : msg := mkMsg [1;2;3] 10 0 KVote 1 3 [170;1] 500.
-Definition nidbug_b : msg := mkMsg [1;2;3] 10 0 KVote 1 7 [187;2] 500.
+Definition nidbug_a : msg := mkMsg [1;2;3] 10 0 KVote 1 3 [170;1] 500 [].
+Definition nidbug_b : msg := mkMsg [1;2;3] 10 0 KVote 1 7 [187;2] 500 [].
 
 Lemma nidbug_refuted :
   nid nidbug_a <> 0 /\ nid nidbug_b <> 0 /\ nid nidbug_a <> nid nidbug_b /\
@@ -642,9 +642,9 @@ Qed.
 
 (* completeness does NOT survive eviction: with room for one message, a third
    party's vote evicts the first of two conflicting votes and nothing is reported *)
-Definition ev_a : msg := mkMsg [1] 5 0 KVote 0 0 [10] 100.
-Definition ev_x : msg := mkMsg [2] 5 0 KVote 0 0 [20] 100.
-Definition ev_b : msg := mkMsg [1] 5 0 KVote 0 0 [11] 100.
+Definition ev_a : msg := mkMsg [1] 5 0 KVote 0 0 [10] 100 [].
+Definition ev_x : msg := mkMsg [2] 5 0 KVote 0 0 [20] 100 [].
+Definition ev_b : msg := mkMsg [1] 5 0 KVote 0 0 [11] 100 [].
 
 Lemma log_incomplete_after_eviction :
   is_conflict ev_a ev_b = true /\
@@ -810,10 +810,10 @@ Qed.
 (* ------------------------------------------------------------------ *)
 (* non-vacuity                                                         *)
 
-Definition ex_v1 : msg := mkMsg [7;7] 100 2 KVote 1 3 [1;1] 600.
-Definition ex_v2 : msg := mkMsg [7;7] 100 2 KVote 1 0 [2;2] 600.
-Definition ex_p1 : msg := mkMsg [7;7] 100 2 KProposal 0 3 [3;3] 500.
-Definition ex_p2 : msg := mkMsg [7;7] 100 2 KProposal 0 3 [4;4] 500.
+Definition ex_v1 : msg := mkMsg [7;7] 100 2 KVote 1 3 [1;1] 600 [].
+Definition ex_v2 : msg := mkMsg [7;7] 100 2 KVote 1 0 [2;2] 600 [].
+Definition ex_p1 : msg := mkMsg [7;7] 100 2 KProposal 0 3 [3;3] 500 [].
+Definition ex_p2 : msg := mkMsg [7;7] 100 2 KProposal 0 3 [4;4] 500 [].
 
 Example ex_conflict_votes : is_conflict ex_v1 ex_v2 = true.
 Proof. vm_compute. reflexivity. Qed.
